@@ -61,6 +61,7 @@ func runC07(c *Check, a *Analysis) {
 	p := c.P
 	sc := siteCounter{}
 	ruleHeaderFresh(c, a, "R-HEADER-FRESH")
+	rulePBFieldsIndependent(c, a, "R-PB-FIELDS")
 
 	// ---- (1) protobuf tables
 	c.Rule("R-PB-TABLE", "protobuf header: triples (field, number, wire type) written by MarshalTo = triples accepted by Unmarshal = documented table; each field decoded by the routine of its kind into the same field", 4)
